@@ -198,7 +198,7 @@ pub fn cmd_e3(args: &Args) -> i32 {
             // others first: on a large input the library cannot handle (outside C09: both sides panic) the
             // parallel call is not bounded by the cost of the reference - CPU-hours of exact predicates on
             // ~1000 co-spherical generators - and a time limit would read that as a hang.
-            if case.gens.len() > 200 && matches!(r, Outcome::Panic(_)) && std::env::var("VERIF_DEV_NO_SKIP").is_err() {
+            if crate::over_budget(&r) || (case.gens.len() > 200 && matches!(r, Outcome::Panic(_)) && std::env::var("VERIF_DEV_NO_SKIP").is_err()) {
                 skipped_large_panic += 1;
                 continue;
             }
